@@ -695,6 +695,7 @@ fn c11check(tier: &str) -> i32 {
     for r in out.into_inner().unwrap() {
         rep.merge(r);
     }
+    c11::restart_hazards(&mut rep);
     rep.add_count("scenarios", jobs.len() as u64);
     rep.finish()
 }
